@@ -156,6 +156,8 @@ def make_load(b, load):
             # online monitor at the load hook: a run that computes far more instants than its duration allows is stopped here
             # (otherwise a runaway time loop would only ever show up as a watchdog timeout, i.e. inconclusive)
             raise RunawayRun(f'more than {b.max_calls} load evaluations: the run computes instants far beyond the requested simulation time')
+        if load.get('bare'):
+            return load_value(load, t, p, w)          # the unit was forgotten: a bare float (the solver answers with a TypeError)
         if load.get('numpy'):
             import numpy as _np          # a load function written with numpy (the documentation's own examples use np.exp / np.sin)
             return Torque(_np.float64(load_value(load, t, p, w)) / _np.float64(fac), lu)
@@ -270,8 +272,14 @@ def build(spec, hooks=True):
     b.prior_design = []
     if spec.get('prior_design') is not None:
         prior_design(b, spec)
-    for i, e in enumerate(spec['chain']):
-        declare(b.elements[i], b.elements[i + 1], e['rel'])
+    idx = list(range(len(spec['chain'])))
+    if spec.get('declare_order') == 'backward':
+        idx.reverse()                    # the chain is wired from the load side back to the motor
+    elif isinstance(spec.get('declare_order'), int):
+        import random as _r
+        _r.Random(spec['declare_order']).shuffle(idx)
+    for i in idx:
+        declare(b.elements[i], b.elements[i + 1], spec['chain'][i]['rel'])
     b.motor, b.last = b.elements[0], b.elements[-1]
     b.rejected_attempts = 0
     if spec.get('failed_attempts') is not None:
@@ -591,6 +599,14 @@ def run_schedule(b, on_capture=None):
             apply_ic(b, op.get('units'))
         elif o == 'newsolver':
             b.solver = g().Solver(powertrain=b.pt)
+        elif o == 'failrun':
+            # a run that is expected to fail inside its first instant (user error in a callback); whatever it leaves behind,
+            # the NEXT call is judged. Not entered in the list of runs.
+            try:
+                b.solver.run(time_discretization=mkq(op['dt']), simulation_time=mkq(op['T']), motor_control=b.control)
+                b.failrun_outcome = 'accepted'
+            except Exception as ex:
+                b.failrun_outcome = type(ex).__name__
         elif o == 'remount':
             # the driven part of this (already simulated) powertrain is ALSO mounted on a second motor and assembled there;
             # the first powertrain is fixed at its construction and keeps working on its own element tuple
